@@ -66,6 +66,13 @@ theorem roundtrip_full_refuted : ¬ roundtrip_full := by
   rw [roundtrip_witness_bare_eq.1, roundtrip_witness_bare_eq.2] at this
   revert this; decide
 
+/-- F14c (open; same input shape as F14b): the unnamed quoted value `|=` is read correctly at start, but its
+    recorded text `|=` is taken for NAME= by the recorder (`|=""`) and comes back as the named parameter `|`.
+    `roundOk` excludes exactly this: an unnamed value recorded unquoted must hold no '='. -/
+theorem roundtrip_witness_F14c :
+    parse (render [.quoted ['|', '=']]) = [([], ['|', '='])] ∧
+    parse (recorded (render [.quoted ['|', '=']])) = [(['|'], [])] ∧ roundOk ([], ['|', '=']) = false := by decide
+
 /-- **C11 (restart/retry) — for EVERY list of parameters** (name, value) satisfying `roundOk` — name empty or
     well-formed; a value recorded quoted (empty, or white space / '"' inside) does not end with a backslash and,
     if unnamed, has no '=' before its first white space (F14b); a value recorded unquoted is one word — the
@@ -191,6 +198,7 @@ end BdModel.P11
 #print axioms BdModel.P11.param_exact_partial
 #print axioms BdModel.P11.param_seen_partial
 #print axioms BdModel.P11.roundtrip_full_refuted
+#print axioms BdModel.P11.roundtrip_witness_F14c
 #print axioms BdModel.P11.roundtrip_pairs
 #print axioms BdModel.P11.roundtrip_partial
 #print axioms BdModel.P11.roundtrip_regression_F13
